@@ -20,4 +20,117 @@ package verifspec
 
 //@ func build/cache.BuildCache.packageKey
 //@ property C20
+//@   ensures len(result) > 0
 //@   ensures str(result) == joinid(pair(str("package"), pair(gosyntax(pair(str(bc.GOOS), pair(str(bc.GOARCH), pair(str(bc.GOROOT), pair(str(bc.GOPATH), pair(strs(bc.BuildTags), pair(str(bc.Version), 0))))))), pair(str(importPath), 0))))
+
+// ---- ghost file system: fsc(p) is the content state of the file named p (0 = absent); complete(c) is the state
+// "holds a complete serialisation of cacheable c" (a value > 0 distinct from every partial state).
+//@ ghostfn fsc int
+//@ pure complete(c int) int
+//@ pure fname(f int) int
+//@ pure dirid(p int) int
+//@ pure baseid(p int) int
+//@ pure timeAfter(w1 int, e1 int, w2 int, e2 int) bool
+
+//@ extern path/filepath.Dir
+//@   param p
+//@   ensures str(result) == dirid(str(p))
+//@ extern path/filepath.Base
+//@   param p
+//@   ensures str(result) == baseid(str(p))
+//@ extern os.MkdirAll
+//@   param p perm
+//@   assigns nothing
+// os.CreateTemp: a new file in dir whose name differs from dir/pattern (the random suffix is never empty).
+//@ extern os.CreateTemp
+//@   param dir pattern
+//@   results f err
+//@   assigns nothing
+//@   ensures err == nil ==> f != nil && all(p, dirid(p) == str(dir) && baseid(p) == str(pattern) ==> fname(ref(f)) != p)
+//@   ensures err != nil ==> f == nil
+//@ extern os.File.Name
+//@   param f
+//@   ensures str(result) == fname(ref(f))
+//@ extern os.File.Close
+//@   param f
+//@   assigns nothing
+//@ extern os.Remove
+//@   param name
+//@   assigns fsc(str(name))
+//@   ensures result == nil ==> fsc(str(name)) == 0
+//@   ensures result != nil ==> fsc(str(name)) == old(fsc(str(name)))
+// os.Rename is atomic: either the target holds what the source held and the source is gone, or nothing changed.
+//@ extern os.Rename
+//@   param a b
+//@   assigns fsc(str(a)), fsc(str(b))
+//@   ensures result == nil ==> fsc(str(b)) == old(fsc(str(a))) && (str(a) != str(b) ==> fsc(str(a)) == 0)
+//@   ensures result != nil ==> fsc(str(b)) == old(fsc(str(b))) && fsc(str(a)) == old(fsc(str(a)))
+//@ extern os.Open
+//@   param p
+//@   results f err
+//@   assigns nothing
+//@   ensures err == nil ==> f != nil
+//@ extern os.IsNotExist
+//@   param err
+//@   assigns nothing
+//@ extern time.Now
+//@   assigns nothing
+//@ extern time.Since
+//@   param t
+//@   assigns nothing
+//@ extern time.Duration.Round
+//@   param d m
+//@   assigns nothing
+//@ extern time.Time.After
+//@   param t u
+//@   ensures result == timeAfter(t.wall, t.ext, u.wall, u.ext)
+
+// ---- serialisation pipeline: gob over gzip over the file.  Ghost flags record which steps succeeded.
+//@ extern compress/gzip.NewWriter
+//@   param w
+//@   assigns nothing
+//@   ensures result != nil
+//@ extern encoding/gob.NewEncoder
+//@   param w
+//@   assigns nothing
+//@   ensures result != nil
+//@ extern encoding/gob.Encoder.Encode
+//@   param enc e
+//@   ghost encOK = (result == nil)
+//@ extern build/cache.Cacheable.Write
+//@   param c encode
+//@   ghost writeOK = (result == nil)
+//@   ghost wrote = ref(c)
+// Closing the gzip writer after the time stamp and the payload were written successfully leaves the complete entry in
+// the underlying file; in every other case the file content is unspecified (partial).
+//@ extern compress/gzip.Writer.Close
+//@   param z
+//@   assigns fsc(sinkname)
+//@   ensures result == nil && encOK && writeOK ==> fsc(sinkname) == complete(wrote)
+//@   ensures fsc(sinkname) != 0
+
+//@ func build/cache.BuildCache.serialize
+//@ property C20
+//@   ghost encOK = false
+//@   ghost writeOK = false
+//@   ghost wrote = 0
+//@   ghost sinkname = fname(ref(w))
+//@   ensures err == nil ==> fsc(fname(ref(w))) == complete(ref(c))
+//@   ensures all(p, p != fname(ref(w)) ==> ghostarr("fsc")[p] == old(ghostarr("fsc"))[p])
+
+// Store: the entry appears under its final name only by an atomic rename of a completely written, closed temporary
+// file; at every external call (= possible crash point) the final name holds either what it held before or the
+// complete new entry; test packages and a nil cache never touch the file system.
+//@ func build/cache.BuildCache.Store
+//@ property C20
+//@   recv_may_be_nil
+//@   crashinv fsc(str(path)) == old(ghostarr("fsc"))[str(path)] || fsc(str(path)) == complete(ref(c))
+//@   ensures (bc == nil || (len(importPath) > 0 && (importPath == bc.TestedPackage || importPath == bc.TestedPackage + "_test"))) ==> !result && ghostarr("fsc") == old(ghostarr("fsc"))
+//@   ensures result ==> fsc(str(path)) == complete(ref(c))
+//@   ensures !result && bc != nil && !(len(importPath) > 0 && (importPath == bc.TestedPackage || importPath == bc.TestedPackage + "_test")) ==> fsc(str(path)) == old(ghostarr("fsc"))[str(path)]
+
+// cachedPath: a function of the key list (and the cache root) only; an empty key is refused.
+//@ func build/cache.cachedPath
+//@ property C20
+//@   panics_only_if forall(k, 0, len(keys), len(keys[k]) == 0)
+//@   ensures str(result) == joinid(pair(str(global("build/cache.cacheRoot")), pair(str(strof(sha256hex(joinid(strs(keys))))[0:2]), pair(sha256hex(joinid(strs(keys))), 0))))
